@@ -88,7 +88,7 @@ def requests(L, rng, per_fn, catalog=None):
     return np.concatenate(reqs), strs
 
 
-def jmon(cp, req, resp_raw, strs, fntable):
+def jmon(cp, req, resp_raw, strs, fntable, jvm=()):
     d = tempfile.mkdtemp(prefix='xv-java-')
     try:
         f = [os.path.join(d, x) for x in ('req', 'str', 'resp', 'out')]
@@ -96,7 +96,7 @@ def jmon(cp, req, resp_raw, strs, fntable):
         with open(f[1], 'wb') as fh:
             for s in strs:
                 fh.write(s.encode('utf8', 'surrogateescape') + b'\0')
-        p = subprocess.run(['java', '-Xss16m', '-cp', cp, 'JMon', f[0], f[1], f[2], fntable, f[3]], stdout=subprocess.PIPE, stderr=subprocess.STDOUT, timeout=3600)
+        p = subprocess.run(['java', '-Xss16m'] + list(jvm) + ['-cp', cp, 'JMon', f[0], f[1], f[2], fntable, f[3]], stdout=subprocess.PIPE, stderr=subprocess.STDOUT, timeout=3600)
         if p.returncode != 0 or not os.path.exists(f[3]):
             return dict(crash=p.returncode, tail=p.stdout.decode('utf8', 'replace')[-800:])
         return dict(recs=[json.loads(l) for l in open(f[3])])
@@ -110,6 +110,7 @@ def main(tier):
     per_fn = 15000 if tier == 'quick' else 200000
     stats, nocp, worst = {}, set(), (0.0, '')
     edge = dict(compared=0, skipped_not_the_same_double=0)
+    hostile_calls = {}
     for config in ('shipped', 'kissel'):
         L = execlib.Lib(config)
         cp = build.java_bundle(config)
@@ -124,6 +125,24 @@ def main(tier):
         parts = np.array_split(np.arange(len(req)), 8)
         with ThreadPoolExecutor(8) as ex:
             outs = list(ex.map(lambda idx: jmon(cp, req[idx], res.raw[idx], strs, fnt), parts))
+        # the same class files in JVMs a host may really run them in: assertions enabled (-ea: the default of Gradle / Maven test runs), a default
+        # locale with a decimal comma and '.' as grouping separator (de_DE), the Turkish locale (dotless i in toLowerCase / toUpperCase), another
+        # default charset and time zone - every request that carries a string and one numeric request in six, again
+        sub = np.nonzero((req['s'] >= 0) | (np.arange(len(req)) % 6 == 0))[0]
+        hostile = [('-ea de_DE', ['-ea', '-Duser.language=de', '-Duser.country=DE']),
+                   ('-ea tr_TR ISO-8859-9', ['-ea', '-Duser.language=tr', '-Duser.country=TR', '-Dfile.encoding=ISO-8859-9', '-Duser.timezone=Pacific/Kiritimati'])]
+        jobs_h = [(label, opts, idx) for label, opts in hostile for idx in np.array_split(sub, 4)]
+        with ThreadPoolExecutor(8) as ex:
+            outs_h = list(ex.map(lambda j: (j[0], jmon(cp, req[j[2]], res.raw[j[2]], strs, fnt, jvm=j[1])), jobs_h))
+        for label, o in outs_h:
+            if 'crash' in o:
+                ck.violation('c19:jvm-dies:%s' % label.split()[-1], 'the Java monitor dies (rc %s) in a JVM started with %s: %s' % (o['crash'], label, o['tail'][-300:]), dict(config=config, jvm=label))
+                continue
+            for x in o['recs']:
+                if x['type'] == 'viol':
+                    ck.violation(x['key'] + ':jvm:' + label.replace(' ', '_'), x['what'] + ' (JVM started with %s)' % label, dict(call=x['witness'], count=x['count'], config=config, jvm=label))
+                elif x['type'] == 'fn':
+                    hostile_calls[label] = hostile_calls.get(label, 0) + x['calls']
         for o in outs:
             if 'crash' in o:
                 raise common.Inconclusive('JMon failed (rc %s): %s' % (o['crash'], o['tail']))
@@ -159,7 +178,7 @@ def main(tier):
     pairs = sum((1 if s['values_compared'] else 0) + (1 if s['errors_agreed'] else 0) for s in stats.values())
     if calls < 20000 or len(stats) < 80 or compared < 5000 or nconst < 1000:
         raise common.Inconclusive('Java monitor observed too little: %d calls, %d methods, %d values, %d constants' % (calls, len(stats), compared, nconst))
-    cov = dict(evaluations=calls, distinct_nontrivial=pairs, energies_exactly_on_an_edge=edge,
+    cov = dict(evaluations=calls, distinct_nontrivial=pairs, energies_exactly_on_an_edge=edge, calls_replayed_in_jvms_with_other_options=hostile_calls,
                rule='every C function with a static Java method of the same name and argument types (reflection) x seeded samples of the discrete argument space, '
                     'energies/angles and strings incl. NULL, plus formulas, catalogue entries and crystal functions; C results recorded by the executor, the same '
                     'request stream replayed in the JVM loaded with the data file generated from the same sources; exception <=> C error, values within '
